@@ -119,6 +119,8 @@ type EncodeOpts struct {
 	// complete field: header and value) instead of the field - e.g. the same id
 	// with another wire type, as a writer with a diverged schema would send.
 	Replace func(s *schema.Struct, f *schema.Field) []byte
+	// Dup, when non-nil and true, writes the field twice (a repeated occurrence).
+	Dup func(s *schema.Struct, f *schema.Field) bool
 }
 
 func Encode(s *schema.Struct, v reflect.Value) []byte {
@@ -158,6 +160,10 @@ func appendStruct(b []byte, s *schema.Struct, v reflect.Value, o *EncodeOpts) []
 		}
 		b = append(b, f.T.WT(), byte(f.ID>>8), byte(f.ID))
 		b = appendValue(b, f.T, v.Field(f.Index), o)
+		if o != nil && o.Dup != nil && o.Dup(s, f) {
+			b = append(b, f.T.WT(), byte(f.ID>>8), byte(f.ID))
+			b = appendValue(b, f.T, v.Field(f.Index), o)
+		}
 	}
 	if s.HasUnknown {
 		b = append(b, Holder(s, v)...)
